@@ -256,6 +256,11 @@ func tables(s *sqlgen.Schema) []tbl {
 	add("t_inbool", RowINull[bool]{}, []interface{}{&RowINull[bool]{1, false}, &RowINull[bool]{2, true}}, tbl{filter: true})
 	add("t_intime", RowINull[time.Time]{}, []interface{}{&RowINull[time.Time]{1, time.Time{}}, &RowINull[time.Time]{2, times()[0]}}, tbl{})
 	add("t_fussy", Row[*Fussy]{}, mk[*Fussy](nil, &Fussy{0}, &Fussy{5}), tbl{})
+	// a type that serialises itself (driver.Valuer + sql.Scanner) under a json / string / binary tag: its own
+	// Value and Scan are used on both sides, the tag does not change the stored form
+	add("t_jfussy", RowJSON[Fussy]{}, []interface{}{&RowJSON[Fussy]{1, Fussy{0}}, &RowJSON[Fussy]{2, Fussy{5}}}, tbl{})
+	add("t_sfussy", RowStr[Fussy]{}, []interface{}{&RowStr[Fussy]{1, Fussy{7}}}, tbl{})
+	add("t_bfussy", RowBin[*Fussy]{}, []interface{}{&RowBin[*Fussy]{1, nil}, &RowBin[*Fussy]{2, &Fussy{9}}}, tbl{noStr: true})
 	add("t_wide", Wide{}, []interface{}{
 		&Wide{Id: 1},
 		&Wide{A: -3, Id: 2, B: p("b"), C: []byte("c"), D: times()[1], E: "e", F: p(1.5), G: 65535, H: "h"},
